@@ -204,9 +204,27 @@ def curvature (g : G) : Option Q :=
     | _, _ => none) (some (Q.ofNat 0))
   s.map fun s => s.add (Q.neg (Q.ofNat g.size))
 
+/-- least chamber of the ⟨op i, op j⟩-orbit of every chamber, by propagating the minimum along
+    both operations until nothing changes (at most `size` rounds) -/
+def orbitMin (g : G) (i j : Nat) : Array Nat :=
+  let step (lab : Array Nat) : Array Nat :=
+    g.chambers.foldl (fun (lab : Array Nat) d =>
+      let a := lab.getD d 0
+      let b := lab.getD (g.op i d) a
+      let c := lab.getD (g.op j d) a
+      let m := min a (min b c)
+      ((lab.setIfInBounds d m).setIfInBounds (g.op i d) m).setIfInBounds (g.op j d) m) lab
+  let rec go : Nat → Array Nat → Array Nat
+    | 0, lab => lab
+    | n + 1, lab =>
+      let lab' := step lab
+      if lab' == lab then lab else go n lab'
+  go g.size (List.range (g.size + 1)).toArray
+
 /-- least chambers of the (i,j)-orbits -/
 def orbitReps (g : G) (i j : Nat) : List Nat :=
-  g.chambers.filter fun d => listMin (g.component [i, j] d) == d
+  let lab := orbitMin g i j
+  g.chambers.filter fun d => lab.getD d 0 == d
 
 /-- orders of the cone points of a 2-dimensional symbol: the branching numbers > 1 of the
     2-orbits, one per orbit, all three index pairs (`v_02 = 2 / r_02`); 0 marks an undefined one -/
